@@ -63,7 +63,9 @@ def check(kind, body, corrupted_typ, what):
         return P.compare_update(kind, body)
     if not announced:
         return None
-    hard = [b for b in bad if b[0] not in DISCARD_CLASS]
+    # RFC 7606 section 3.c: flags in conflict with the type are treat-as-withdraw for EVERY attribute; "attribute discard"
+    # (section 7.6, 7.7) is what is done about the malformed VALUE of ATOMIC_AGGREGATE / AGGREGATOR / AS4_AGGREGATOR
+    hard = [b for b in bad if b[0] not in DISCARD_CLASS or b[1] == 'flags']
     if hard:
         return {'what': f'route announced / stored although attribute {hard[0][0]} is malformed ({hard[0][1]})', 'input': inp, 'observed': str(obs['update'])[:400]}
     # attribute-discard class: the malformed attribute must be gone and every other attribute intact
